@@ -464,6 +464,7 @@ from ..variants import V  # noqa: E402
 _M = 'src/emsarray/masking.py'
 _U = 'src/emsarray/conventions/ugrid.py'
 VARIANTS = [
+    V('C08', 'packed-refusal-only-for-scaled', 'src/emsarray/masking.py', "        encoded_dtype is not None\n        and numpy.dtype(encoded_dtype).kind in 'iub'", "        encoded_dtype is not None\n        and 'scale_factor' in data_array.encoding\n        and numpy.dtype(encoded_dtype).kind in 'iub'", 'R08.6'),
     V('C08', 'packed-without-fill-gets-nan', _M, "        and numpy.dtype(encoded_dtype).kind in 'iub'\n        and data_array.encoding.get('_FillValue') is None\n", "        and numpy.dtype(encoded_dtype).kind in 'iub'\n        and data_array.encoding.get('_FillValue') is not None\n", 'R08.6'),
     V('C08', 'packed-none-marker-counts-as-fill', _M, "        and data_array.encoding.get('_FillValue') is None\n        and data_array.encoding.get('missing_value') is None\n", "        and '_FillValue' not in data_array.encoding\n        and 'missing_value' not in data_array.encoding\n", 'R08.6'),
     V('C08', 'benign-packed-none-default-spelled', _M, "        and data_array.encoding.get('_FillValue') is None\n", "        and data_array.encoding.get('_FillValue', None) is None\n", None),
